@@ -12,8 +12,8 @@ extern "C" {
 typedef struct { uint64_t key_id; unsigned char nonce[12]; uint64_t aad_h, pt_h; uint32_t pt_len; int alg; unsigned char aad[16]; unsigned char pt0; } vfh_seal_t;
 extern vfh_seal_t vfh_ledger[]; extern unsigned vfh_ledger_n, vfh_ledger_overflow; void vfh_ledger_reset(void);
 }
-enum { A_SEND0, A_SEND1, A_SEND_BIG, A_SEND_USERBUF_RETRY, A_PEER_SEND, A_GARBAGE_TO_PEER, A_CLOSE, A_TIMEOUT, A_DROP_NEXT, A_BURST, A_N };
-static const char *act_name[] = { "send(api0)", "send(api1)", "send-16k", "EncodeToUserBuf-small-then-retry", "peer-send", "garbage->alert", "close", "dtls-timeout", "dtls-drop-next", "burst-300" };
+enum { A_SEND0, A_SEND1, A_SEND_BIG, A_SEND_USERBUF_RETRY, A_PEER_SEND, A_GARBAGE_TO_PEER, A_CLOSE, A_TIMEOUT, A_DROP_NEXT, A_BURST, A_SEND_EMPTY, A_N };
+static const char *act_name[] = { "send(api0)", "send(api1)", "send-16k", "EncodeToUserBuf-small-then-retry", "peer-send", "garbage->alert", "close", "dtls-timeout", "dtls-drop-next", "burst-300", "send-zero-length" };
 
 static uint64_t g_entropy_seen; static std::vector<Bytes> *g_draws;
 static void tap(const unsigned char *b, uint32_t n) { g_entropy_seen += n; if (g_draws && n <= 64) g_draws->emplace_back(b, b + n); }
@@ -109,6 +109,9 @@ static void prop(Tape &t, Ctx &c) {
         case A_CLOSE: A.send_close(); break;
         case A_TIMEOUT: if (dt) { A.dtls_timeout(); B.dtls_timeout(); } break;
         case A_DROP_NEXT: if (dt) drop_next = true; break;
+        case A_SEND_EMPTY: { // a zero-length application record through either API: refused or sealed, it must not disturb the nonce sequence
+            static const uint8_t nothing[1] = { 0 }; int api = (int) t.below(2); if (!A.alive()) break; int rc = A.send(nothing, 0, api); c.count(rc >= 0 ? "zero-length-record-encoded" : "zero-length-record-refused");
+            send_checked(A, amsg(1 + t.below(40)), api); break; }
         case A_BURST: for (int i = 0; i < 300 && A.alive(); i++) { send_checked(A, amsg(1 + (i % 7)), 0); if ((i & 31) == 31) settle(p); } break;
         }
         settle(p);
@@ -131,7 +134,7 @@ static void prop(Tape &t, Ctx &c) {
     }
     c.count("ledger-entries", vfh_ledger_n); c.count("cbc-records-checked", cbc_records_checked); c.count("dtls-retransmitted-seals", retrans);
     c.count(std::string("ver:") + ver_name(ver));
-    bool interesting = false; for (int a : acts) if (a == A_GARBAGE_TO_PEER || a == A_SEND_USERBUF_RETRY || a == A_CLOSE || a == A_TIMEOUT || a == A_DROP_NEXT || a == A_BURST) interesting = true;
+    bool interesting = false; for (int a : acts) if (a == A_GARBAGE_TO_PEER || a == A_SEND_USERBUF_RETRY || a == A_CLOSE || a == A_TIMEOUT || a == A_DROP_NEXT || a == A_BURST || a == A_SEND_EMPTY) interesting = true;
     if ((vfh_ledger_n >= 2 || cbc_records_checked >= 2) && interesting) { std::set<int> ks(acts.begin(), acts.end()); std::string k; for (int a : ks) k += std::to_string(a) + ","; c.nontrivial(fmt("%d|%04x|%d|%s", ver, su.id, kind, k.c_str())); }
 }
 VF_TARGET("C17.nonce_ledger", prop, 256, 120)
